@@ -266,7 +266,8 @@ pub struct World<F: Fl> {
 
 /// Default node value (priority) of node k when nothing else is specified.
 pub fn default_val(k: K) -> i8 {
-    (k as i8) * 10
+    // distinct for the first 12 nodes; larger graphs reuse the values
+    ((k % 12) as i8) * 10
 }
 
 impl<F: Fl> World<F> {
